@@ -617,6 +617,7 @@ package app
 //@   ensures C11.frame [C11]: mysqlUntouched() && e_SetRecovery == old(e_SetRecovery) && e_SetActive == old(e_SetActive) && e_SetMaster == old(e_SetMaster) && e_ClearRecovery <= old(e_ClearRecovery) + 1 && (forall h string :: h != app.config.Hostname ==> d_recovery[h] == old(d_recovery)[h])
 //@   ensures C11.lost_keeps_mark [C11]: reached("isSlavePermanentlyLost", 1) && resultof("isSlavePermanentlyLost", 1) ==> e_ClearRecovery == old(e_ClearRecovery) && e_WriteResetup == old(e_WriteResetup) + 1
 //@   assert_at ClearRecovery#1 C11.clear_conditions [C11]: callarg0 == app.config.Hostname && resultof("IsRecoveryNeeded", 1) && !resultof("doesResetupFileExist", 1) && resultof("GetReplicaStatus", 1, 1) == nil && sstatus != nil && !resultof("isSlavePermanentlyLost", 1) && readOnly && resultof("IsReadOnly", 1, 2) == nil && resultof("GTIDExecutedParsed", 1, 1) == nil
+//@   assert_at ClearRecovery#1 C11.clear_not_stuck [C11]: reached("IsWaitingSemiSyncAck", 1) && oldMasterStuck == resultof("IsWaitingSemiSyncAck", 1, 0) && (oldMasterStuck ==> master == localNode.host)
 //@   assert_at isSlavePermanentlyLost#1 C11.lost_against_master [C11]: callarg0 == sstatus && callarg1 == mgtids && mgtids == resultof("GTIDExecutedParsed", 1, 0) && resultof("(dcs.DCS).Get", 1) == nil
 //@   assert_at writeResetupFile#2 C11.resetup_when_lost [C11]: resultof("isSlavePermanentlyLost", 1)
 //@   assert_at writeResetupFile#1 C11.resetup_when_stuck [C11]: oldMasterStuck && master != localNode.host && resultof("time.Since", 1) >= StuckWaitTime
